@@ -22,7 +22,10 @@ PROP = dict(
                    'the Go code by regenerated constants and a differential run of every ObjectTree operation and query with a full pool '
                    'dump after each operation; the oracle runs on the implementation\'s dump. Histories produced by clients of the tree ops are '
                    'covered by a second harness part: tables fed through the real ParseAML, pool dumped after every table, WF oracle + '
-                   'lookups of every declared name from several scopes.',
+                   'lookups of every declared name from several scopes; this includes rejected tables (deferred blocks whose TermArg operands are '
+                   'cut at every operand boundary: the tree outlives the rejected table) and a watchdog that turns a parser that does not '
+                   'return into the observation hang. The op histories repeat the identical simple-name lookup around an append / '
+                   'insert-after of a same-named object (shadowing, positive and negative variant).',
         level_note='All clauses of the property are proved for the model (no _partial theorem left). Not proved: the specification of '
                    'ClosestNamedAncestor (only its totality; its result is checked by the oracle), and completeness of wfCheck (only '
                    'soundness). Torn pool states after a mid-operation Go panic (contract violations only) are not modelled. '
